@@ -308,6 +308,68 @@ def run(repo, out_dir):
                  f'Definition unpickle_rebuilds_functors : bool := {"true" if rebuilds else "false"}.')
     info['unpickle_chemical'] = 'rebuilds' if rebuilds else 'keeps pickled functors'
 
+    # the constructor Chemical.__new__: ORDER of the statements that change an input of _init_energies (Hvap= / Cn= user
+    # models, default(), set_method(method)) relative to the statement(s) that build the functors
+    fn = find_method(src, 'Chemical', '__new__')
+    body = strip_docstring(src, fn.body)
+    def seg1(x): return ' '.join(src.seg(x).split())
+    def has_call(node, attr, owner_attr=None):
+        for x in ast.walk(node):
+            if isinstance(x, ast.Call) and isinstance(x.func, ast.Attribute) and x.func.attr == attr:
+                o = x.func.value
+                if owner_attr is None:
+                    if isinstance(o, ast.Name) and o.id == 'self': return True
+                elif isinstance(o, ast.Attribute) and o.attr == owner_attr and isinstance(o.value, ast.Name) and o.value.id == 'self':
+                    return True
+        return False
+    start = [k for k, st in enumerate(body) if isinstance(st, ast.If) and isinstance(st.test, ast.Name) and st.test.id == 'search_db']
+    if len(start) != 1:
+        src.err(fn, '__new__: expected one `if search_db: self = cls.new(...) else: self = cls.blank(...)`')
+    st0 = body[start[0]]
+    steps = []
+    for br in (st0.body, st0.orelse):
+        asg = [x for x in br if isinstance(x, ast.Assign) and len(x.targets) == 1 and isinstance(x.targets[0], ast.Name) and x.targets[0].id == 'self']
+        if len(asg) != 1 or br[-1] is not asg[0] or not (isinstance(asg[0].value, ast.Call) and isinstance(asg[0].value.func, ast.Attribute)
+                and asg[0].value.func.attr in ('new', 'blank') and isinstance(asg[0].value.func.value, ast.Name) and asg[0].value.func.value.id == 'cls'):
+            src.err(st0, '__new__: each branch of `if search_db` must end with self = cls.new(...) / cls.blank(...)')
+        fe = [k.value for k in asg[0].value.keywords if k.arg == 'free_energies']
+        if not (len(fe) == 1 and isinstance(fe[0], ast.Constant) and fe[0].value is False):
+            src.err(asg[0], '__new__: the inner constructor call does not pass free_energies=False (it would build the functors early): extend the constructor model')
+    for st in body[:start[0]]:
+        if has_call(st, 'reset_free_energies') or has_call(st, '_init_energies') or has_call(st, 'set_method'):
+            src.err(st, '__new__: wiring call before the object exists')
+    tail = body[start[0] + 1:]
+    if not (tail and isinstance(tail[-1], ast.Return) and isinstance(tail[-1].value, ast.Name) and tail[-1].value.id == 'self'):
+        src.err(fn, '__new__: must end with `return self`')
+    for st in tail[:-1]:
+        t = seg1(st)
+        if has_call(st, '_init_energies') or any(isinstance(x, ast.Attribute) and isinstance(x.ctx, ast.Store) and x.attr in ('_H', '_S', '_Cn', '_Hvap', '_Tm', '_Tb', '_Hfus', '_Sfus', '_S0', '_phase_ref')
+                                                  for x in ast.walk(st)):
+            src.err(st, '__new__: direct wiring / assignment of a wiring input is outside the subset')
+        if has_call(st, 'reset_free_energies'):
+            if t != 'self.reset_free_energies()': src.err(st, '__new__: reset_free_energies must be an unconditional top-level statement')
+            steps.append('KReset')
+        elif has_call(st, 'set_method'):
+            if t != 'if method: self.set_method(method)': src.err(st, '__new__: set_method call is outside the subset')
+            steps.append('KSetMethod')
+        elif has_call(st, 'default'):
+            if t != 'if default: self.default()': src.err(st, '__new__: default() call is outside the subset')
+            steps.append('KDefault')
+        elif has_call(st, 'add_method', '_Hvap'):
+            if t != 'if Hvap: self._Hvap.add_method(Hvap)': src.err(st, '__new__: Hvap user model is outside the subset')
+            steps.append('KAddHvap')
+        elif has_call(st, 'add_method', '_Cn'):
+            if not (isinstance(st, ast.If) and isinstance(st.test, ast.Name) and st.test.id == 'phase'):
+                src.err(st, '__new__: Cn / Cp user models must be under `if phase:`')
+            steps.append('KAddCnIfPhase')
+        elif any(has_call(st, m) for m in ('copy_models_from', 'at_state', 'reset', 'copy')):
+            src.err(st, '__new__: call that changes the wiring or its inputs is outside the subset')
+    info['__new__'] = steps
+    lines.append(f'(* {REL}:{fn.lineno} Chemical.__new__ after self = cls.new / cls.blank(..., free_energies=False): the statements that change an\n'
+                 f'   input of _init_energies or build the functors, in source order *)\n'
+                 f'Inductive ctor_step : Type := KAddHvap | KAddCnIfPhase | KDefault | KSetMethod | KReset.\n'
+                 f'Definition ctor_tail : list ctor_step := [{"; ".join(steps)}].')
+
     out = header('tr/C07_rewire.py', [src], ['call sites of _init_energies / reset_free_energies in Chemical'])
     out += 'From Coq Require Import List Bool.\nFrom V Require Import C07.Model.\nImport ListNotations.\n\n' + '\n\n'.join(lines) + '\n'
     import vf
